@@ -131,6 +131,37 @@ def run_canvas(case, env, res):
                         res.violation("%s:%s" % (key, errs[0][0]), "%s canvas %dx%d trim (left=%d, top=%d, cols=%d, rows=%d): %r [%s]" % (case["style"], C, R, tl, tt, cols, rows, errs[:3], case), dict(case, trim=[tl, tt, cols, rows]))
                         if res.too_many():
                             return
+    # two views of the same rows consumed alternately, row by row -- the way urwid's
+    # CompositeCanvas consumes the parts of an image left and right of an overlay
+    if text and C >= 3 and R >= 2:
+        for _ in range(6):
+            a = rnd.randint(1, C - 2)
+            b = rnd.randint(a + 1, C - 1)
+            tt = rnd.randrange(R - 1)
+            rows = rnd.randint(2, R - tt)
+            views = [(0, tt, a, rows), (b, tt, C - b, rows), (a, tt, b - a, rows)][: rnd.randint(2, 3)]
+            gens = [iter(canv.content(*v)) for v in views]
+            res.count("interleaved views of one canvas")
+            bad = None
+            for i in range(rows):
+                for v, g in zip(views, gens):
+                    try:
+                        segs = next(g)
+                    except StopIteration:
+                        bad = ("row-count", v, i)
+                        break
+                    vt = run_row(segs, v[2], personality)
+                    if vt.c != v[2] or vt.autowraps:
+                        bad = ("row-width", v, i, vt.c)
+                    elif row_view(vt, v[2], True) != full[tt + i][0][v[0] : v[0] + v[2]]:
+                        bad = ("cells-differ", v, i)
+                    if bad:
+                        break
+                if bad:
+                    break
+            if bad:
+                res.violation("%s:interleaved:%s" % (key, bad[0]), "%s canvas %dx%d: views %s consumed alternately: %r [%s]" % (case["style"], C, R, views, bad, case), dict(case, views=views))
+                break
     res.cases += ntr
     res.count("canvases")
     res.count("sub-rectangles requested", ntr)
